@@ -72,6 +72,31 @@ def flat_index_ok(idx, rows_pred):
     return ok, (parent[0] if parent else None), f"arange(B).repeat(W): {seq_ok}; parent * B with B = rows // beam_width: {len(bsz) == 1}"
 
 
+def running_scores_have_one_writer(ctx: Ctx, cls):
+    """C13.k the running beam scores `self.parent_beam_logprobs` are written by the hook that creates them and by
+    `_make_beam_step`, which stores them already in NEW-beam order (the top-k values themselves).  Any other writer -- e.g. a
+    re-indexing by the beam parents in `_step`, "like td / logprobs / mask" -- permutes them a second time: the scores of an
+    instance's beams are attached to the wrong beams and the next top-k no longer keeps the highest-scoring expansions."""
+    import ast
+    ALLOWED = {"__init__", "pre_decoder_hook", "_make_beam_step"}
+    writers = {}
+    for mn, fi in cls.methods.items():
+        for st in ast.walk(fi.node):
+            tg = st.targets if isinstance(st, ast.Assign) else ([st.target] if isinstance(st, (ast.AugAssign, ast.AnnAssign)) else [])
+            for t in tg:
+                base = t
+                while isinstance(base, ast.Subscript):
+                    base = base.value
+                if isinstance(base, ast.Attribute) and isinstance(base.value, ast.Name) and base.value.id == "self" and base.attr == "parent_beam_logprobs":
+                    writers.setdefault(mn, st.lineno)
+    if "_make_beam_step" not in writers:
+        raise AnalysisError("BeamSearch._make_beam_step does not write parent_beam_logprobs")
+    extra = sorted(set(writers) - ALLOWED)
+    ctx.ob("C13.k", "BeamSearch.parent_beam_logprobs:writers", not extra, cls.methods["_make_beam_step"].loc,
+           f"written by {sorted(writers)}" + ("" if not extra else f": {extra} also write(s) the running scores -- they are already stored in new-beam order by _make_beam_step"),
+           construct="BeamSearch.parent_beam_logprobs:writers")
+
+
 def best_by_reward(ctx: Ctx, cls):
     """C13.h with best-selection the returned beam is the one with the maximum REWARD: BeamSearch.post_decoder_hook, on every
     return path taken under `self.select_best`, returns the value of `self._select_best_beam(<logprobs>, <sequences>, td, env)`
@@ -168,6 +193,7 @@ def run(ctx: Ctx):
         _o.rule = "C13.g"
     best_by_reward(ctx, cls)
     beams_scored_like_single_rows(ctx)
+    running_scores_have_one_writer(ctx, cls)
     # ---------------- _make_beam_step
     fi, it, fr = analyse(ctx, cls, "_make_beam_step")
     # the intermediate values are recovered from the outputs (returned pair, beam_path.append, parent_beam_logprobs), not by local names
